@@ -99,4 +99,41 @@ __CPROVER_assigns(*end, g_strtol_endc, g_num_neg, g_num_ovf, g_num_mag)
 __CPROVER_ensures(IN_RANGE(p, *end, p + g_w))
 __CPROVER_ensures(g_strtol_endc == *(*end))
 __CPROVER_ensures(RET == (g_num_ovf ? ~0UL : (g_num_neg ? 0UL - g_num_mag : g_num_mag)));
+/* std::stoi / stol / stoul (C++17 [string.conversions]) in the same vocabulary: invalid_argument when the text does not start with a numeral,
+   out_of_range when the number does not fit the result type, otherwise the number and (through pos) the index where the numeral ends.
+   Not used by the unchanged tree: a rewrite of the port parser with them is decided over what the text denotes, like the strtol form. */
+static inline long vs_sto_common_(const struct vs_nstr *s, size_t *pos, unsigned long max_pos, unsigned long max_neg)
+{
+    bool neg, ovf, none; unsigned long mag; size_t e; char endc;
+    g_num_neg = neg; g_num_ovf = ovf; g_num_mag = mag;
+    if (s->size == 0 || none) { g_strtol_endc = (s->size == 0) ? 0 : 'x'; vs_exc = VS_EXC_INVALID_ARGUMENT; return 0; }
+    __CPROVER_assume(e >= 1 && e <= s->size && ((e == s->size) == (endc == 0)));
+    g_strtol_endc = endc;
+    if (ovf || (neg ? mag > max_neg : mag > max_pos)) { vs_exc = VS_EXC_OUT_OF_RANGE; return 0; }
+    if (pos) *pos = e;
+    return neg ? (long)(0UL - mag) : (long)mag;
+}
+static inline int  vs_stoi3(const struct vs_nstr *s, size_t *pos, int base) { (void)base; return (int)vs_sto_common_(s, pos, 2147483647UL, 2147483648UL); }
+static inline long vs_stol3(const struct vs_nstr *s, size_t *pos, int base) { (void)base; return vs_sto_common_(s, pos, VS_LONG_MAX, VS_LONG_MAX + 1UL); }
+static inline unsigned long vs_stoul3(const struct vs_nstr *s, size_t *pos, int base)
+{
+    (void)base;
+    bool neg, ovf, none; unsigned long mag; size_t e; char endc;
+    g_num_neg = neg; g_num_ovf = ovf; g_num_mag = mag;
+    if (s->size == 0 || none) { g_strtol_endc = (s->size == 0) ? 0 : 'x'; vs_exc = VS_EXC_INVALID_ARGUMENT; return 0; }
+    __CPROVER_assume(e >= 1 && e <= s->size && ((e == s->size) == (endc == 0)));
+    g_strtol_endc = endc;
+    if (ovf) { vs_exc = VS_EXC_OUT_OF_RANGE; return 0; }
+    if (pos) *pos = e;
+    return neg ? 0UL - mag : mag;
+}
+/* std::stoi(str), (str, &pos), (str, &pos, base): the defaulted arguments are filled in by arity */
+#define VS_STO_ARGS_(a, b, c, ...) a, b, c
+#define VS_STO_ARGS(...) VS_STO_ARGS_(__VA_ARGS__, (size_t *)0, 10, 10)
+#define vs_stoi(...) vs_stoi_a(VS_STO_ARGS(__VA_ARGS__))
+#define vs_stoi_a(...) vs_stoi3(__VA_ARGS__)
+#define vs_stol(...) vs_stol_a(VS_STO_ARGS(__VA_ARGS__))
+#define vs_stol_a(...) vs_stol3(__VA_ARGS__)
+#define vs_stoul(...) vs_stoul_a(VS_STO_ARGS(__VA_ARGS__))
+#define vs_stoul_a(...) vs_stoul3(__VA_ARGS__)
 #endif
